@@ -1,7 +1,10 @@
 """C13 — link_partial re-links a frame range without corrupting labels elsewhere.
 
 One case = one table (rows, positions on the 1/8 grid, a VALID old labelling: non-negative, unique
-per frame, no gaps), a link_range and a search range.  Per case:
+per frame, no gaps), a link_range and a search range; in the `opts` stream additionally one choice
+for every option of link_partial's signature and for the layout of the table (`inp["opts"]`, see
+`spec_of` / `gen_opts`: column names, dtypes, label magnitude, index, linker kwargs).  Labels are
+exact Python ints throughout (never floats).  Per case:
 
   implementation : `trackpy.link_partial` from the tree under test; `reconnect_traj_patch` is wrapped
                    (from here, no source edit) to capture the table it receives: that gives the
@@ -36,6 +39,17 @@ RULE = ("tables of 1-6 particles x 3-10 frames on the 1/8 grid (random walks wit
         "positions from 2 before the first to 2 after the last frame incl. single-frame, clamped, "
         "full-cover and disjoint ranges; thorough tier adds the exhaustive family of all 343 valid "
         "old partitions of 2 particles x 4 frames x 3 namings x all ranges x 3 motion patterns.  "
+        "Stream `opts` = such a table with every option of link_partial's signature and every layout "
+        "of the table drawn independently: t_column default / passed / another name, with or without an "
+        "unrelated column carrying the other name; pos_columns guessed / explicit in either order / "
+        "tuple / custom names with or without unrelated x,y columns / 1-D / 3-D / passive z; "
+        "search_range float / int / numpy / tuple / list / per-axis; link_range tuple / list / numpy; "
+        "linker kwargs (memory=0, link_strategy, neighbor_strategy, adaptive_*, predictor=None); old "
+        "labels renamed injectively to start above 0, straddle 2**31, 2**53 (consecutive, odd), carry a "
+        "2**60 prefix, sit at the top of int64 or beyond (uint64), or mix small and huge ones, held in "
+        "int64 / uint64 / object / Int64 / (below 2**53) float64 columns; frame numbers shifted to "
+        "negative or beyond 2**31 and held in (u)int8..64; extra columns named like trackpy's internal "
+        "ones; str / float / negative / duplicated / Multi index, named or not.  "
         "Non-trivial = the reconnect branch ran, an old track crosses the first or last frame of the "
         "range, and the partition inside the range differs from the old one; distinct = distinct "
         "canonical input.")
@@ -47,6 +61,17 @@ ASSUMPTIONS = [
     "positions are multiples of 1/8 and never decide a branch of reconnect_traj_patch: no float "
     "tolerance is involved in this check",
     "memory=0 inside the patch (the docstring excludes memory for reconnect_traj_patch)",
+    "labels are exact Python ints everywhere in the harness (read column by column with tolist(); a "
+    "float-typed label is accepted only when integral) and arbitrary-size Int in the driver protocol",
+    "rows are identified by a passive unique column, so that duplicated index values can be generated; "
+    "the index VALUES of every row must be preserved, the index NAME is not judged (pandas_sort renames "
+    "an index called like the t_column)",
+    "J2 comes from tp.link on a table rebuilt from the case with canonical column names and a default "
+    "index, with the same per-axis search range and linker kwargs; with link_strategy='drop' no "
+    "tie-breaking alternative is accepted",
+    "inputs on which the unchanged tree fails are not generated and listed above gen_opts (open-ended "
+    "link_range, float t_column, narrow-int particle column, user column `_old_particle`, index named "
+    "`particle`, negative old labels, memory > 0)",
     "interpretive choice: when a Joined-class contains two rows of one frame, completeness is only "
     "required for the generating pairs J2, J3 and J1 restricted to rows on the same side of the range",
 ]
@@ -306,6 +331,165 @@ def gen_exhaustive():
                                meta=dict(old_mode="exhaustive", naming="n%d" % ni, range_kind=pname))
 
 
+# ---- the `opts` stream: the options of link_partial's public signature and the layouts of the table
+#
+# Classes deliberately NOT generated, because the UNCHANGED tree fails on them (each is a finding that
+# was reported, none is silenced by an oracle exception):
+#   * link_range with an open end, (None, stop) / (start, None): `assert start < stop` is evaluated
+#     before the `is None` tests -> TypeError (the None handling is dead code);
+#   * a float-typed t_column: `astype(np.integer)` -> TypeError with numpy 2 (the docstring promises
+#     the column "will be coerced to integer");
+#   * a `particle` column of a narrow integer dtype (int8/16/32, uint8/16/32): pandas 3 refuses
+#     `f.loc[mask, 'particle'] = _ids` -> TypeError "Invalid value '[0, 1]' for dtype 'int32'";
+#   * a user column called `_old_particle`: overwritten and dropped (values not preserved);
+#   * an index NAMED `particle`: `groupby('particle')` is ambiguous -> ValueError;
+#   * negative old labels (-1, ...): reconnect_traj_patch treats `p_old < 0` as "unlabelled" and does
+#     not reconnect such a track at the range's edges.  The statement quantifies over labels "from
+#     linking without memory", which are non-negative, so this is outside the property's domain;
+#   * memory > 0 (reconnect_traj_patch's docstring excludes it; the statement says "without memory");
+#   * neighbor_strategy='BTree' needs scikit-learn, link_strategy='numba' needs numba (neither is
+#     installed: 'numba' silently falls back to 'recursive' and is generated as such).
+
+LABEL_SCHEMES = {
+    # injective maps on the small naturals produced by gen_table
+    "keep": lambda t: t,
+    "from7": lambda t: 7 + t,                              # labels not starting at 0
+    "i32edge": lambda t: 2 ** 31 - 2 + t,                  # straddles the int32 limit
+    "p53": lambda t: 2 ** 53 - 2 + t,                      # straddles the float64 integer limit
+    "p53odd": lambda t: 2 ** 53 + 2 * t + 1,               # none of them is a float64
+    "p60": lambda t: 2 ** 60 + t,                          # per-movie prefix: neighbours share one float64
+    "p62s": lambda t: 2 ** 62 + 1000003 * t + 17,
+    "i64max": lambda t: 2 ** 63 - 1 - t,                   # the top of int64
+    "mixed": lambda t: t if t % 2 == 0 else 2 ** 60 + t,   # small and huge labels side by side
+    "u64": lambda t: 2 ** 63 + 5 + t,                      # only representable as uint64 / object
+}
+
+
+def gen_opts(rng, thorough=False):
+    inp = gen_table(rng, thorough)
+    rows = inp["rows"]
+    n = len(rows)
+    o = {}
+    # ---- labels: magnitude and dtype
+    scheme = rng.choice(["keep"] * 5 + ["from7", "i32edge", "p53", "p53", "p53odd", "p53odd", "p60", "p60",
+                                        "p60", "p62s", "i64max", "i64max", "mixed", "mixed", "u64"])
+    fn = LABEL_SCHEMES[scheme]
+    for r in rows:
+        r[3] = fn(r[3])
+    mx = max(r[3] for r in rows)
+    if mx >= 2 ** 63:
+        o["label_dtype"] = rng.choice(["uint64", "uint64", "object"])
+    elif mx >= 2 ** 53:
+        o["label_dtype"] = rng.choice(["int64"] * 6 + ["uint64", "object", "Int64"])
+    else:
+        o["label_dtype"] = rng.choice(["int64"] * 5 + ["uint64", "float64", "float64", "object", "Int64"])
+    # ---- frame numbers: shifted far / negative, dtype
+    shift = rng.choice([0] * 6 + [-7, -1000, 1000, 2 ** 31 + 5, -(2 ** 31) - 9])
+    if shift:
+        for r in rows:
+            r[0] += shift
+        inp["range"] = [inp["range"][0] + shift, inp["range"][1] + shift]
+    flo, fhi = min(r[0] for r in rows), max(r[0] for r in rows)
+    fd = ["int64"] * 4
+    if -2 ** 31 <= flo and fhi < 2 ** 31 - 1:
+        fd += ["int32", "int32"]
+    if -2 ** 15 <= flo and fhi < 2 ** 15 - 1:
+        fd += ["int16"]
+    if -128 <= flo and fhi < 127:
+        fd += ["int8"]
+    if flo >= 0:
+        fd += ["uint64", "uint32"] if fhi < 2 ** 32 - 1 else ["uint64"]
+        if fhi < 255:
+            fd += ["uint8", "uint16"]
+    o["frame_dtype"] = rng.choice(fd)
+    # ---- t_column
+    tk = rng.choice(["default"] * 4 + ["explicit", "custom", "custom", "custom", "custom_decoy", "custom_decoy",
+                                       "custom_decoy", "default_decoy"])
+    if tk == "explicit":
+        o["t_explicit"] = True
+    elif tk.startswith("custom"):
+        o["t_column"] = rng.choice(["t", "t", "time", "frame_no", "Frame", "f"])
+    if tk.endswith("decoy"):
+        o["decoy_t"] = rng.choice(["double", "const", "reversed", "shifted", "scrambled"])
+    # ---- positions: names, order, dimension
+    pk = rng.choice(["guess"] * 4 + ["yx", "xy", "xy", "custom", "custom", "custom_decoy", "custom_decoy",
+                                     "1d", "3d_guess", "3d_explicit", "z_passive"])
+    names = {"x": "x", "y": "y", "z": "z"}
+    if pk in ("3d_guess", "3d_explicit", "z_passive"):
+        o["z8"] = [rng.choice([0, 0, 0, 4, 8]) for _ in range(n)]
+    if pk == "guess" or pk == "3d_guess":
+        pass
+    elif pk == "3d_explicit":
+        ax = ["x", "y", "z"]
+        rng.shuffle(ax)
+        o["axes"] = ax
+        o["pos_explicit"] = True
+    elif pk == "1d" and len({(r[0], r[1]) for r in rows}) == n:
+        o["axes"] = ["x"]
+        o["pos_explicit"] = True
+    else:
+        o["axes"] = ["x", "y"] if pk in ("xy", "z_passive") or (pk.startswith("custom") and rng.random() < 0.5) \
+            else ["y", "x"]
+        o["pos_explicit"] = True
+        if pk.startswith("custom"):
+            names = rng.choice([{"x": "px", "y": "py", "z": "pz"}, {"x": "x_um", "y": "y_um", "z": "z_um"},
+                                {"x": "y", "y": "x", "z": "z"},          # the two default names exchanged
+                                {"x": "col", "y": "row", "z": "plane"}])
+            o["pos_decoys"] = pk == "custom_decoy"
+    o["names"] = names
+    if o.get("pos_explicit") and rng.random() < 0.25:
+        o["pos_form"] = "tuple"
+    # ---- search range: form, per-axis
+    axes = o.get("axes") or (["z", "y", "x"] if o.get("z8") is not None else ["y", "x"])
+    sk = rng.choice(["float"] * 4 + ["int", "npfloat", "tuple", "list", "aniso", "aniso", "aniso_list"])
+    if sk in ("aniso", "aniso_list"):
+        o["sr8"] = {ax: (inp["sr8"] if ax == "x" else rng.choice([8, 12, 16, 24, 40])) for ax in axes}
+        o["sr_form"] = "tuple" if sk == "aniso" else "list"
+    elif sk == "int":
+        o["sr_form"] = "int" if inp["sr8"] % 8 == 0 else "float"
+    else:
+        o["sr_form"] = sk
+    # ---- link_range form
+    o["range_form"] = rng.choice(["tuple"] * 3 + ["list", "list", "npint", "ndarray"])
+    # ---- other columns whose names resemble the ones link_partial uses internally
+    if rng.random() < 0.4:
+        pool = ["particle_old", "old_particle", "_particle", "particle_new", "index", "level_0", "new",
+                "frame_old", "_old", "mass"]
+        o["extra_cols"] = rng.sample(pool, rng.randint(1, 3))
+    # ---- index layouts (on top of the ones of gen_table)
+    ik = rng.choice(["base"] * 5 + ["str", "float", "negative", "dup_frame", "dup_const", "multi"])
+    if ik == "str":
+        inp["index"] = ["r%d" % ((7 * i + 3) % n) for i in range(n)] if n % 7 else ["r%d" % i for i in range(n)]
+    elif ik == "float":
+        inp["index"] = [0.5 * i - 1 for i in range(n)]
+    elif ik == "negative":
+        inp["index"] = [-(i + 1) for i in range(n)]
+    elif ik == "dup_frame":
+        inp["index"] = [r[0] for r in rows]
+    elif ik == "dup_const":
+        inp["index"] = [0] * n
+    elif ik == "multi":
+        inp["index"] = [[r[0], i % 3] for i, r in enumerate(rows)]
+    if ik != "base":
+        o["index_kind"] = ik
+    if ik != "multi" and rng.random() < 0.3:
+        # (an index called `particle` is excluded, see above)
+        o["index_name"] = rng.choice(["frame", "x", "index", "idx", "val", o.get("t_column", "frame")])
+    # ---- keyword arguments handed through to the linker
+    kk = rng.choice(["none"] * 4 + ["memory0", "recursive", "nonrecursive", "drop", "drop", "auto", "numba",
+                                    "kdtree", "adaptive", "predictor_none"])
+    o["kwargs"] = {"none": {}, "memory0": {"memory": 0}, "recursive": {"link_strategy": "recursive"},
+                   "nonrecursive": {"link_strategy": "nonrecursive"}, "drop": {"link_strategy": "drop"},
+                   "auto": {"link_strategy": "auto"}, "numba": {"link_strategy": "numba"},
+                   "kdtree": {"neighbor_strategy": "KDTree"},
+                   "adaptive": {"adaptive_stop": 0.25, "adaptive_step": 0.9},
+                   "predictor_none": {"predictor": None}}[kk]
+    inp["stream"] = "opts"
+    inp["opts"] = o
+    inp["meta"] = dict(inp["meta"], label_scheme=scheme)
+    return inp
+
+
 def gen_cases(ctx):
     common.setup_repo_path()          # the generator links tables with tp.link (old labels)
     for inp in ctx.corpus():
@@ -317,6 +501,8 @@ def gen_cases(ctx):
     for i in range(n):
         rng = ctx.rng("table", i)
         yield gen_table(rng, ctx.thorough)
+    for i in range(ctx.n(1600, 16000)):
+        yield gen_opts(ctx.rng("opts", i), ctx.thorough)
 
 
 # ------------------------------------------------------------------------------------------------
@@ -447,35 +633,162 @@ def classify(check, label, cap_rows, start, stop, final_by_new, behaves_as_origi
 # ------------------------------------------------------------------------------------------------
 # one case
 
-def build_df(inp):
+AXIS_COL = {"x": 1, "y": 2}      # canonical axes -> position in a row [frame, x8, y8, old]; z8 is in opts
+
+
+def exact_int(v):
+    """a label / frame number as an exact Python int; labels never pass through floats here: an
+    integer-typed value is converted directly, a float-typed one only when it is integral (then the
+    conversion is exact).  Raises ValueError for anything else (NaN, None, 2.5, ...)."""
+    if isinstance(v, (bool, np.bool_)):
+        raise ValueError("not an integer label: %r" % (v,))
+    if isinstance(v, (int, np.integer)):
+        return int(v)
+    if isinstance(v, (float, np.floating)) and np.isfinite(v) and float(v).is_integer():
+        return int(v)
+    raise ValueError("not an integer label: %r" % (v,))
+
+
+def exact_ints(series):
+    return [exact_int(v) for v in series.tolist()]
+
+
+def spec_of(inp):
+    """the options of one case with their defaults (corpus entries and the `table` stream carry none)"""
+    o = dict(inp.get("opts") or {})
+    sp = dict(
+        t_column=o.get("t_column", "frame"),        # name of the time column of the table
+        t_explicit=o.get("t_explicit", False),      # pass t_column= even when it is the default
+        decoy_t=o.get("decoy_t"),                   # an unrelated column carrying the OTHER default name
+        names=o.get("names", {"x": "x", "y": "y", "z": "z"}),
+        axes=o.get("axes"),                         # linked axes in the order given to pos_columns
+        pos_explicit=o.get("pos_explicit", False),  # pass pos_columns= (else link_partial guesses)
+        pos_form=o.get("pos_form", "list"),
+        pos_decoys=o.get("pos_decoys", False),      # unrelated columns called x / y next to custom names
+        z8=o.get("z8"),
+        sr8=o.get("sr8"),                           # {axis: sr8} (per-axis) or None: scalar inp["sr8"]
+        sr_form=o.get("sr_form", "float"),
+        range_form=o.get("range_form", "tuple"),
+        label_dtype=o.get("label_dtype", "int64"),
+        frame_dtype=o.get("frame_dtype", "int64"),
+        extra_cols=o.get("extra_cols", []),
+        index_kind=o.get("index_kind"),
+        index_name=o.get("index_name"),
+        kwargs=o.get("kwargs", {}),
+    )
+    if sp["axes"] is None:
+        sp["axes"] = ["z", "y", "x"] if sp["z8"] is not None else ["y", "x"]
+    return sp
+
+
+def coord8(inp, sp, i, axis):
+    return sp["z8"][i] if axis == "z" else inp["rows"][i][AXIS_COL[axis]]
+
+
+def sr8_of(inp, sp, axis):
+    return inp["sr8"] if sp["sr8"] is None else sp["sr8"][axis]
+
+
+def build_df(inp, sp=None):
     import pandas as pd
+    sp = sp or spec_of(inp)
     rows = inp["rows"]
     n = len(rows)
-    df = pd.DataFrame(dict(x=[r[1] / 8.0 for r in rows], y=[r[2] / 8.0 for r in rows],
-                           frame=[int(r[0]) for r in rows], particle=[int(r[3]) for r in rows],
-                           val=[1000 + 7 * i for i in range(n)]))
+    nm = sp["names"]
+    cols = {}
+    cols[nm["x"]] = [r[1] / 8.0 for r in rows]
+    cols[nm["y"]] = [r[2] / 8.0 for r in rows]
+    if sp["z8"] is not None:
+        cols[nm["z"]] = [z / 8.0 for z in sp["z8"]]
+    cols[sp["t_column"]] = pd.Series([int(r[0]) for r in rows], dtype=sp["frame_dtype"])
+    # labels are built from exact Python ints with the requested dtype (float64 is only generated for
+    # labels below 2**53, where it is exact)
+    cols["particle"] = pd.Series([int(r[3]) for r in rows], dtype=sp["label_dtype"])
+    cols["val"] = [1000 + 7 * i for i in range(n)]
+    frames = [int(r[0]) for r in rows]
+    if sp["decoy_t"]:
+        other = "t" if sp["t_column"] == "frame" else "frame"
+        lo, hi = min(frames), max(frames)
+        cols[other] = {"double": [2 * f for f in frames], "const": [lo + 1] * n,
+                       "reversed": [lo + hi - f for f in frames], "shifted": [f + 1 for f in frames],
+                       "scrambled": [lo + (5 * (f - lo) + 3 * i) % (hi - lo + 2) for i, f in enumerate(frames)],
+                       }[sp["decoy_t"]]
+    if sp["pos_decoys"]:
+        for k, ax in enumerate(("x", "y")):
+            if nm[ax] != ax and ax not in cols:
+                cols[ax] = [float((11 * i + 5 * k) % 7) for i in range(n)]
+    for k, c in enumerate(sp["extra_cols"]):
+        if c in cols:
+            continue
+        cols[c] = ([3 * i + 1 for i in range(n)] if k % 3 == 0 else
+                   [0.5 * i - 2 for i in range(n)] if k % 3 == 1 else ["s%d" % (i % 4) for i in range(n)])
+    df = pd.DataFrame(cols)
     if inp.get("index") is not None:
-        df.index = list(inp["index"])
+        if sp["index_kind"] == "multi":
+            df.index = pd.MultiIndex.from_tuples([tuple(t) for t in inp["index"]])
+        else:
+            df.index = list(inp["index"])
+    if sp["index_name"] is not None:
+        df.index.name = sp["index_name"]
     return df
 
 
-def run_impl(df, sr, rng_ab):
+def call_args(inp, sp):
+    """the arguments of link_partial for this case"""
+    a, b = inp["range"]
+    axes = sp["axes"]
+    per = [sr8_of(inp, sp, ax) / 8.0 for ax in axes]
+    form = sp["sr_form"]
+    if form == "float":
+        sr = per[0]
+    elif form == "int":
+        sr = int(per[0])
+    elif form == "npfloat":
+        sr = np.float64(per[0])
+    elif form == "list":
+        sr = list(per)
+    else:
+        sr = tuple(per)
+    rf = sp["range_form"]
+    rng_arg = {"tuple": (a, b), "list": [a, b], "npint": (np.int64(a), np.int64(b)),
+               "ndarray": np.array([a, b], dtype=np.int64)}[rf]
+    kw = dict(sp["kwargs"])
+    if sp["pos_explicit"]:
+        pc = [sp["names"][ax] for ax in axes]
+        kw["pos_columns"] = tuple(pc) if sp["pos_form"] == "tuple" else pc
+    if sp["t_explicit"] or sp["t_column"] != "frame":
+        kw["t_column"] = sp["t_column"]
+    return sr, rng_arg, kw
+
+
+def run_impl(df, inp, sp):
     """-> (out DataFrame or None, exception or None, capture or None)"""
     import trackpy as tp
     from trackpy.linking import partial as P
     cap = {}
     orig = P.reconnect_traj_patch
+    tcol = sp["t_column"]
 
-    def wrapped(f, link_range, old_particle_column, t_column="frame"):
-        cap["range"] = (int(link_range[0]), int(link_range[1]))
-        cap["rows"] = [(int(a), int(b), int(c)) for a, b, c in
-                       f[[t_column, old_particle_column, "particle"]].values]
-        cap["index"] = list(f.index)
-        return orig(f, link_range, old_particle_column, t_column)
+    def wrapped(*args, **kw):
+        # capture what reconnect_traj_patch receives; every column is read on its own (a joint
+        # `.values` of columns of different dtypes would upcast labels to float64)
+        try:
+            f = args[0] if len(args) > 0 else kw["f"]
+            lr = args[1] if len(args) > 1 else kw["link_range"]
+            oc = args[2] if len(args) > 2 else kw["old_particle_column"]
+            cap["range"] = (int(lr[0]), int(lr[1]))
+            cap["rows"] = list(zip(exact_ints(f[tcol]), exact_ints(f[oc]), exact_ints(f["particle"])))
+            cap["rid"] = [(v - 1000) // 7 for v in exact_ints(f["val"])]
+            cap["t_arg"] = args[3] if len(args) > 3 else kw.get("t_column", "<default>")
+        except Exception as e:  # noqa
+            cap.clear()
+            cap["error"] = "%s: %s" % (type(e).__name__, e)
+        return orig(*args, **kw)
 
     P.reconnect_traj_patch = wrapped
+    sr, rng_arg, kw = call_args(inp, sp)
     try:
-        out = tp.link_partial(df, search_range=sr, link_range=tuple(rng_ab))
+        out = tp.link_partial(df, sr, rng_arg, **kw)
         return out, None, (cap if cap else None)
     except Exception as e:  # judged by the caller
         return None, e, (cap if cap else None)
@@ -483,14 +796,25 @@ def run_impl(df, sr, rng_ab):
         P.reconnect_traj_patch = orig
 
 
-def independent_inlab(df, sr, a, b):
-    """J2 from an independent tp.link of the range's rows: index value -> track"""
+def independent_inlab(inp, sp, a, b):
+    """J2 from an independent tp.link of the range's rows: row number -> track.  The table handed to
+    tp.link is built afresh from the case (columns `frame` and the axis letters, default index), so
+    it does not depend on how link_partial plumbs t_column / pos_columns / the index; the options
+    that define what a link IS (per-axis search range, linker kwargs) are the same."""
+    import pandas as pd
     import trackpy as tp
-    sub = df[(df["frame"] >= a) & (df["frame"] < b)].drop(columns=["particle"])
-    if len(sub) == 0:
+    rows = inp["rows"]
+    sel = [i for i in range(len(rows)) if a <= rows[i][0] < b]
+    if not sel:
         return {}
-    out = tp.link(sub, search_range=sr)
-    return {ix: int(p) for ix, p in zip(out.index, out["particle"].values)}
+    axes = sp["axes"]
+    d = dict(frame=[int(rows[i][0]) for i in sel], rid=sel)
+    for ax in axes:
+        d[ax] = [coord8(inp, sp, i, ax) / 8.0 for i in sel]
+    per = [sr8_of(inp, sp, ax) / 8.0 for ax in axes]
+    sr = per[0] if len(set(per)) == 1 else tuple(per)
+    out = tp.link(pd.DataFrame(d), search_range=sr, pos_columns=list(axes), **dict(sp["kwargs"]))
+    return {int(r): int(p) for r, p in zip(out["rid"].tolist(), out["particle"].tolist())}
 
 
 def same_partition(d1, d2):
@@ -503,31 +827,90 @@ def same_partition(d1, d2):
     return True
 
 
-def links_valid(df, lab, sr):
-    """lab: index -> in-range track; unique per frame, consecutive frames, steps within sr"""
+def links_valid(inp, sp, lab):
+    """lab: row number -> in-range track; consecutive frames, every step within the (per-axis) search
+    range: sum_a (d_a / sr_a)^2 <= 1, evaluated exactly on the 1/8 grid"""
+    from fractions import Fraction
+    rows = inp["rows"]
     by = {}
-    for ix, t in lab.items():
-        by.setdefault(t, []).append((int(df.loc[ix, "frame"]), float(df.loc[ix, "x"]), float(df.loc[ix, "y"])))
+    for i, t in lab.items():
+        by.setdefault(t, []).append((int(rows[i][0]), i))
     for t, lst in by.items():
         lst.sort()
-        for (f1, x1, y1), (f2, x2, y2) in zip(lst, lst[1:]):
+        for (f1, i), (f2, j) in zip(lst, lst[1:]):
             if f2 != f1 + 1:
                 return False
-            if (x2 - x1) ** 2 + (y2 - y1) ** 2 > sr * sr * (1 + 1e-9):
+            q = sum(Fraction((coord8(inp, sp, j, ax) - coord8(inp, sp, i, ax)) ** 2, sr8_of(inp, sp, ax) ** 2)
+                    for ax in sp["axes"])
+            if q > 1:
                 return False
     return True
+
+
+def opt_stats(res, inp, sp, rows, a, b, hi):
+    """publish the distribution of the options (the `opts` stream)"""
+    res.stat("stream_" + str(inp.get("stream", "corpus")))
+    if sp["t_column"] != "frame":
+        res.stat("opt_t_column_custom")
+        res.stat("opt_t_column_custom_with_unrelated_frame_column" if sp["decoy_t"]
+                 else "opt_t_column_custom_no_frame_column")
+    elif sp["decoy_t"]:
+        res.stat("opt_unrelated_t_column_next_to_frame")
+    if sp["t_explicit"]:
+        res.stat("opt_t_column_default_passed_explicitly")
+    if sp["pos_explicit"]:
+        res.stat("opt_pos_columns_" + "".join(sp["axes"]) + ("_tuple" if sp["pos_form"] == "tuple" else ""))
+    else:
+        res.stat("opt_pos_columns_guessed_" + "".join(sp["axes"]))
+    if sp["names"].get("x") != "x":
+        res.stat("opt_pos_custom_names" + ("_with_unrelated_xy" if sp["pos_decoys"] else ""))
+    res.stat("opt_ndim_%d" % len(sp["axes"]))
+    per = [sr8_of(inp, sp, ax) for ax in sp["axes"]]
+    res.stat("opt_search_range_%s%s" % (sp["sr_form"], "_anisotropic" if len(set(per)) > 1 else ""))
+    res.stat("opt_link_range_" + sp["range_form"])
+    res.stat("opt_label_dtype_" + sp["label_dtype"])
+    res.stat("opt_frame_dtype_" + sp["frame_dtype"])
+    if sp["extra_cols"]:
+        res.stat("opt_extra_columns")
+    if sp["index_kind"]:
+        res.stat("opt_index_" + sp["index_kind"])
+    if sp["index_name"] is not None:
+        res.stat("opt_index_named")
+    for k, v in sorted(sp["kwargs"].items()):
+        res.stat("opt_kw_%s_%s" % (k, v))
+    if not sp["kwargs"]:
+        res.stat("opt_kw_none")
+    mx = max(r[3] for r in rows)
+    res.stat("labels_max_" + ("lt_2p31" if mx < 2 ** 31 else "lt_2p53" if mx < 2 ** 53 else
+                              "lt_2p63" if mx < 2 ** 63 else "ge_2p63"))
+    if min(r[3] for r in rows) > 0:
+        res.stat("labels_not_starting_at_0")
+    if min(r[0] for r in rows) < 0:
+        res.stat("negative_frame_numbers")
+    if max(abs(r[0]) for r in rows) >= 2 ** 31:
+        res.stat("frame_numbers_ge_2p31")
+    if b <= hi:
+        res.stat("range_ends_before_table_end")
+        at_edge = {r[3] for r in rows if r[0] == b - 1}
+        if any(r[0] >= b and r[3] not in at_edge for r in rows):
+            res.stat("track_born_after_range")
+            if mx >= 2 ** 53:
+                res.stat("track_born_after_range_labels_ge_2p53")
 
 
 def run_case(ctx, inp):
     res = Result()
     rows = inp["rows"]
     a, b = inp["range"]
-    sr = inp["sr8"] / 8.0
     meta = inp.get("meta", {})
     if not _valid_old(rows):
         res.violation("harness-error", "generator produced an invalid old labelling: %r" % (rows,))
         return res
-    df = build_df(inp)
+    sp = spec_of(inp)
+    n = len(rows)
+    tcol = sp["t_column"]
+    srdesc = {ax: sr8_of(inp, sp, ax) / 8.0 for ax in sp["axes"]}
+    df = build_df(inp, sp)
     frames_all = sorted(set(int(r[0]) for r in rows))
     lo, hi = frames_all[0], frames_all[-1]
     in_frames = [f for f in range(max(a, lo), min(b, hi + 1))]
@@ -536,6 +919,8 @@ def run_case(ctx, inp):
     res.stat("cases")
     res.stat("old_" + str(meta.get("old_mode", "corpus")))
     res.stat("naming_" + str(meta.get("naming", "corpus")))
+    if meta.get("label_scheme"):
+        res.stat("label_scheme_" + meta["label_scheme"])
     res.stat("rows_%s" % ("1-4" if len(rows) <= 4 else "5-12" if len(rows) <= 12 else "13-30" if len(rows) <= 30 else "31+"))
     if inp.get("family"):
         res.stat("exhaustive_family")
@@ -549,16 +934,16 @@ def run_case(ctx, inp):
         res.stat("range_exceeds_data")
     if inp.get("index") is not None:
         res.stat("nondefault_index")
+    opt_stats(res, inp, sp, rows, a, b, hi)
 
     before = df.copy()
-    out, exc, cap = run_impl(df, sr, (a, b))
+    out, exc, cap = run_impl(df, inp, sp)
     # the caller's table must not be modified
-    if not before.equals(df):
+    if not before.equals(df) or list(before.index) != list(df.index) or \
+            [str(t) for t in before.dtypes] != [str(t) for t in df.dtypes]:
         res.violation("property-violation", "link_partial modified the caller's table",
                       signature=dict(what="input-mutated"))
 
-    order_hint = []
-    model_rows = None
     if exc is not None:
         res.stat("impl_raised")
         if not overlaps:
@@ -568,60 +953,86 @@ def run_case(ctx, inp):
         else:
             sig = dict(what="unexpected-exception", error=type(exc).__name__)
         res.violation("property-violation",
-                      "link_partial raised %s: %s (range %s, frames %d..%d, empty frames in range %s)"
-                      % (type(exc).__name__, str(exc)[:120], (a, b), lo, hi, empty_in_range),
+                      "link_partial raised %s: %s (range %s, frames %d..%d, empty frames in range %s, call %s)"
+                      % (type(exc).__name__, str(exc)[:120], (a, b), lo, hi, empty_in_range,
+                         describe_call(inp, sp)),
                       impl="raise:" + type(exc).__name__, broken=sig["what"], signature=sig)
-        # model of the repaired code on the same input (labels of an independent link as in-range labels)
         return res
 
     # ---- (d) rows and values preserved ---------------------------------------------------------
+    # rows are identified by the unique passive column `val` (the index may hold duplicates)
     cols_in = list(before.columns)
-    ok_rows = sorted(map(int, out.index)) == sorted(map(int, before.index)) and len(out) == len(before)
-    if not ok_rows:
-        res.violation("property-violation", "rows not preserved: index %s -> %s"
-                      % (list(before.index), list(out.index)), signature=dict(what="other", check="preserve"))
-        return res
-    if sorted(out.columns) != sorted(cols_in):
+    psig = dict(what="other", check="preserve")
+    if sorted(map(str, out.columns)) != sorted(map(str, cols_in)):
         res.violation("property-violation", "columns changed: %s -> %s" % (cols_in, list(out.columns)),
-                      signature=dict(what="other", check="preserve"))
+                      signature=psig)
+        return res
+    bval = before["val"].tolist()
+    oval = out["val"].tolist()
+    if sorted(oval) != sorted(bval):
+        res.violation("property-violation", "rows not preserved: val %s -> %s" % (bval, oval), signature=psig)
+        return res
+    opos = {v: k for k, v in enumerate(oval)}
+    out_al = out.iloc[[opos[v] for v in bval]]        # the output in the input's row order
+    # (the NAME of the index is not judged: trackpy's pandas_sort deliberately renames an index that
+    # is called like the t_column to '<name>_index')
+    if list(out_al.index) != list(before.index):
+        res.violation("property-violation", "index not preserved: %s -> %s"
+                      % (list(before.index), list(out_al.index)), signature=psig)
         return res
     for c in cols_in:
         if c == "particle":
             continue
-        if not (out[c].reindex(before.index).values == before[c].values).all():
-            res.violation("property-violation", "values of column %r changed" % c,
-                          signature=dict(what="other", check="preserve"))
+        if out_al[c].tolist() != before[c].tolist():
+            res.violation("property-violation", "values of column %r changed: %s -> %s"
+                          % (c, before[c].tolist(), out_al[c].tolist()), signature=psig)
             return res
 
-    # canonical row order for the oracle: the input order
-    ix_list = list(before.index)
-    pos = {ix: i for i, ix in enumerate(ix_list)}
-    frames = [int(v) for v in before["frame"].values]
-    old = [int(v) for v in before["particle"].values]
-    final = [int(out.loc[ix, "particle"]) for ix in ix_list]
+    # canonical row order for the oracle: the input order; row i <-> val 1000 + 7 i
+    frames = [int(r[0]) for r in rows]
+    old = [int(r[3]) for r in rows]
+    try:
+        final = exact_ints(out_al["particle"])
+    except ValueError as e:
+        res.violation("property-violation", "the output is not a labelling: %s (labels %s)"
+                      % (e, out_al["particle"].tolist()), signature=dict(what="non-integer-label"))
+        return res
+    if any(l < 0 for l in final):
+        i = [k for k in range(n) if final[k] < 0][0]
+        res.violation("property-violation", "row %d (frame %d) is left unlabelled: label %d; range %s"
+                      % (i, frames[i], final[i], (a, b)), impl=dict(final=final),
+                      signature=dict(what="negative-label"))
+        return res
+    rid_sorted = [(v - 1000) // 7 for v in oval]       # row numbers in the output's row order
 
     # ---- in-range labels: captured vs independent ------------------------------------------------
-    indep = independent_inlab(before, sr, a, b) if overlaps else {}
-    if cap is not None:
+    indep = independent_inlab(inp, sp, a, b) if overlaps else {}
+    cap_ok = cap is not None and "error" not in cap
+    if cap is not None and not cap_ok:
+        res.stat("capture_failed")
+    if cap_ok:
         start, stop = cap["range"]
-        captured = {ix: nw for ix, (fr, o, nw) in zip(cap["index"], cap["rows"]) if start <= fr < stop}
+        captured = {i: nw for i, (fr, o, nw) in zip(cap["rid"], cap["rows"]) if start <= fr < stop}
         res.stat("mode_reconnect")
     else:
         start, stop = max(a, lo), min(b, hi + 1)
-        captured = {ix: int(out.loc[ix, "particle"]) for ix in ix_list if a <= frames[pos[ix]] < b}
-        res.stat("mode_full" if overlaps else "mode_norange")
+        captured = {i: final[i] for i in range(n) if a <= frames[i] < b}
+        if cap is None:
+            res.stat("mode_full" if overlaps else "mode_norange")
     inlab_src = indep
     inner_mismatch = False
     if not same_partition(indep, captured):
-        if set(indep) == set(captured) and links_valid(before, captured, sr) and \
-                len({(frames[pos[ix]], t) for ix, t in captured.items()}) == len(captured):
+        # `drop` leaves every subnetwork unlinked: there is no tie that could be broken differently
+        if set(indep) == set(captured) and sp["kwargs"].get("link_strategy") != "drop" and \
+                links_valid(inp, sp, captured) and \
+                len({(frames[i], t) for i, t in captured.items()}) == len(captured):
             res.stat("inner_link_tie_broken_differently")
             inlab_src = captured
         else:
             # the implementation re-linked something else than the rows of [a, b): judge its output
             # against the statement (J2 from the independent link); reported below
             inner_mismatch = True
-    inlab = [inlab_src.get(ix) for ix in ix_list]
+    inlab = [inlab_src.get(i) for i in range(n)]
 
     # ---- oracle -----------------------------------------------------------------------------------
     bad, conflict = oracle(frames, old, inlab, a, b, final)
@@ -634,14 +1045,13 @@ def run_case(ctx, inp):
         return res
 
     # ---- model ------------------------------------------------------------------------------------
-    if cap is not None:
+    if cap_ok:
         mrows = cap["rows"]
-        mix = cap["index"]
+        mrid = cap["rid"]
     else:
-        mix = list(out.index)
-        mrows = [(int(out.loc[ix, "frame"]), old[pos[ix]],
-                  int(out.loc[ix, "particle"]) if a <= frames[pos[ix]] < b else old[pos[ix]]) for ix in mix]
-    impl_labels = [int(out.loc[ix, "particle"]) for ix in mix]
+        mrid = rid_sorted
+        mrows = [(frames[i], old[i], final[i] if a <= frames[i] < b else old[i]) for i in mrid]
+    impl_labels = [final[i] for i in mrid]
     # order hint: in-range tracks sorted by the label the implementation gave them
     fin = {}
     for (fr, o, nw), l in zip(mrows, impl_labels):
@@ -660,22 +1070,25 @@ def run_case(ctx, inp):
 
     lf, lo_ = labels_of(mf), labels_of(mo)
     final_by_new = {}
-    if cap is not None:
-        for ix, (fr, o, nw) in zip(cap["index"], cap["rows"]):
+    if cap_ok:
+        for i, (fr, o, nw) in zip(cap["rid"], cap["rows"]):
             if start <= fr < stop:
-                final_by_new[nw] = int(out.loc[ix, "particle"])
+                final_by_new[nw] = final[i]
     seen_sig = set()
     for check, msg, label in bad:
-        sig = classify(check, label, cap["rows"] if cap else None, start, stop, final_by_new,
+        sig = classify(check, label, cap["rows"] if cap_ok else None, start, stop, final_by_new,
                        behaves_as_original=(lo_ == impl_labels and lf != impl_labels))
         key = common.canon(sig)
         if key in seen_sig:
             continue
         seen_sig.add(key)
-        res.violation("property-violation", "%s: %s; range %s search_range %s" % (check, msg, (a, b), sr),
+        res.violation("property-violation", "%s: %s; range %s search_range %s; call %s"
+                      % (check, msg, (a, b), srdesc, describe_call(inp, sp)),
                       impl=dict(final=final), broken=sig["what"], signature=sig)
 
     if mf.get("validold") == "0" or mf.get("validnew") == "0":
+        if bad:
+            return res          # the captured in-range labels are themselves broken; already reported
         res.violation("harness-error", "driver judges the input invalid: %r" % mf)
         return res
     if lf != lo_:
@@ -706,8 +1119,17 @@ def run_case(ctx, inp):
         res.stat("old_track_crosses_range_edge")
     if changed:
         res.stat("patch_changes_partition")
-    res.nontrivial = bool(cap is not None and crossing and changed)
+    res.nontrivial = bool(cap_ok and crossing and changed)
+    if res.nontrivial and inp.get("stream") == "opts":
+        res.stat("nontrivial_opts_stream")
     if res.nontrivial and not res.viol and (conflict or mf.get("npend", "0") != "0"):
         res.sample = dict(input=dict(rows=rows, range=[a, b], sr8=inp["sr8"]), final=final,
                           model=mf.get("labels"), conflict=conflict)
     return res
+
+
+def describe_call(inp, sp):
+    sr, rng_arg, kw = call_args(inp, sp)
+    return "link_partial(f, %r, %r%s) label dtype %s" % (
+        sr, rng_arg if not isinstance(rng_arg, np.ndarray) else rng_arg.tolist(),
+        "".join(", %s=%r" % kv for kv in sorted(kw.items())), sp["label_dtype"])
